@@ -702,6 +702,8 @@ def swap_site(out_ops_list, primary_ops: List, swap_jw: bool, algo="Hopcroft-Kar
     if swap_jw:
         # modifies primary_ops in place !!
         table, factor = table_and_factor_swapped_jw(table, factor, primary_ops)
+        # different rows can become the same row after the Jordan-Wigner remapping: sum them
+        table, factor = _deduplicate_table(table, factor)
         table[:, 3] = table[:, 3] + (len(primary_ops) - n_primary_ops)
         n_primary_ops = len(primary_ops)
         primary_ops = primary_ops.copy()
